@@ -57,14 +57,15 @@ Example C16_nonvacuous :
                                     "l = [1," +++ sb [10] +++ "2]"; "s = ""ab" +++ sb [10] +++ "c{"""].
 Proof. split; vm_compute; reflexivity. Qed.
 
-(* value mode and file mode of one statement, started from the same machine *)
+(* value mode and file mode of one statement, started from the same machine: the same global bindings,
+   the same output written, the same input left *)
 Theorem C16_modes_bind_the_same_globals : forall t s s1 s2 v c m n G' x,
   wstmt t = true -> wfcs s -> idle v s c m ->
   ByteCode t s = CompOk s1 -> ByteCodeNoStck t s = CompOk s2 ->
-  ssem n (v_globals v) t = Some (G', Ok x) ->
+  ssem n (wof v) t = Some (G', Ok x) ->
   exists k, forall fuel, (k < fuel)%nat ->
-    v_globals (fst (Run fuel (load_code v s1) true)) = G' /\
-    v_globals (fst (Run fuel (load_code v s2) false)) = G' /\
+    wof (fst (Run fuel (load_code v s1) true)) = G' /\
+    wof (fst (Run fuel (load_code v s2) false)) = G' /\
     snd (Run fuel (load_code v s1) true) = RValue x /\
     snd (Run fuel (load_code v s2) false) = RValue VNil.
 Proof.
